@@ -593,8 +593,10 @@ Definition step (k : kf) (pick : N) (a : action) (st : state) : state :=
         if negb (i <? next st) || negb (memN c (convs st)) then st else
         if kf_viewstore k || (sv i =? ver st i)
         then set_cache st (fun c' i' => if (c' =? c) && (i' =? i) then Some (sv i) else cache st c' i')
-        else (* repaired: output of an old version is dropped again by the posted closure and the stream is queued *)
-          start_converter (set_toconv st (fupd (toconv st) c (add1 i (toconv st c))))
+        else (* repaired: the posted closure calls invalidateConverters({i}): the stored output of the old version is
+                dropped and queued again -- and so is the output of stream i in every other converter's cache *)
+          let st2 := invalidate_converters st (add1 i 0) in
+          start_converter (set_toconv st2 (fupd (toconv st2) c (add1 i (toconv st2 c))))
       end
     | None => st
     end
